@@ -5,6 +5,7 @@ import (
 	"crypto/sha256"
 	"crypto/sha512"
 	"hash"
+	"strings"
 
 	"github.com/segmentio/kafka-go/protocol/saslauthenticate"
 	"github.com/segmentio/kafka-go/protocol/saslhandshake"
@@ -18,13 +19,17 @@ type SASLConfig struct {
 	// Fault injected into the exchange: "", "bad-server-final" (malformed last server message),
 	// "close-at:<step>" (close the connection instead of answering authenticate round <step>)
 	Fault string
+	// InBand makes a failed SCRAM step answer with error code 0 and the server's e=... message
+	// (what a broker does that signals the failure inside the SASL payload)
+	InBand bool
 }
 
 type saslSession struct {
-	mech  string
-	conv  *scram.ServerConversation
-	round int
-	done  bool
+	mech         string
+	conv         *scram.ServerConversation
+	round        int
+	done         bool
+	failedInBand bool
 }
 
 type AuthRec struct {
@@ -44,6 +49,11 @@ func (c *Cluster) scramServer(mech string) *scram.ServerConversation {
 	}
 	srv, err := hg.NewServer(func(user string) (scram.StoredCredentials, error) {
 		pw, ok := c.SASL.Users[user]
+		if !ok {
+			// RFC 5802: ',' and '=' travel as =2C and =3D in the user name
+			user = strings.ReplaceAll(strings.ReplaceAll(user, "=2C", ","), "=3D", "=")
+			pw, ok = c.SASL.Users[user]
+		}
 		if !ok {
 			return scram.StoredCredentials{}, errUnknownUser
 		}
@@ -117,6 +127,13 @@ func (c *Cluster) saslStep(sc *srvConn, in []byte) (out []byte, done, failed boo
 	}
 	resp, err := s.conv.Step(string(in))
 	if err != nil {
+		if c.SASL.InBand && resp != "" {
+			s.failedInBand = true
+			return []byte(resp), false, false
+		}
+		return nil, false, true
+	}
+	if s.failedInBand {
 		return nil, false, true
 	}
 	if s.conv.Done() {
